@@ -26,3 +26,20 @@ contract(
         tag("C03", "area-needs-that-many-bins", "obj.lower_bound_bins * (bin_height * bin_width) >= item_area"),
     ],
 )
+
+# ---- C17: instgen.Errors.evaluate returns a value in [0, 1] (block contract on the return statement)
+from pyvc.spec import REAL  # noqa: E402
+
+contract(
+    "moptipyapps.binpacking2d.instgen.errors:Errors.evaluate",
+    props="C17",
+    block=("return #0", "return #0"),
+    params={"errors": PYINT},
+    ghosts={"ME": PYINT},
+    attrs={"self.__max_errors": "ME"},
+    i64=False,
+    requires=["ME >= 1"],
+    returns=REAL,
+    ensures=[tag("C17", "clamped-to-unit-interval", "0 <= result and result <= 1")],
+    assumptions=["max_errors >= 1 (Errors.__init__; a degenerate template with max_errors == 0 would divide by zero)"],
+)
